@@ -82,7 +82,7 @@ def chunk(ws, n):
 from fractions import Fraction as _F
 GRID = [_F(0), '-0', _F(1), _F(-1), _F(2), _F(3), _F(1, 2), _F(-5, 2), _F(7), _F(29, 4), _F(1, 8), _F(-11)]
 GRID_INEXACT = [_F(1, 3), _F(-1, 10), _F(355, 113), _F(10, 7)]
-COMPOSITIONAL_ABOVE = 5
+COMPOSITIONAL_ABOVE = 3
 SPECIALS = [0.0, -0.0, 1.0, -1.0, 0.5, 2.0, 3.0, 1e-3, 1e3, 0.1, 1e10, -1e-10, 7.25, -2.5, 1.0 / 3.0]
 
 
